@@ -61,6 +61,12 @@ def case(draw, tier="quick"):
             if spec[big + "_coeffs"]:
                 spec[big + "_coeffs"] = ["c%d %d.5 %s%d" % (r, r, big[0], r) + ("   # T%d" % r if r % 2 else "") for r in range(rows)]
             spec[big + "_types"] = [draw(hperm.integers(0, rows - 1)) for _ in spec[big + "_types"]]
+    if all(spec["type_labels"]) and draw(hperm.integers(0, 5)) == 0:
+        # a type whose mass is no element's (coarse-grained bead, dummy site): the loader then uses type ids as elements,
+        # but masses and the labels written as comments still come back
+        t = draw(hperm.integers(0, len(spec["type_masses"]) - 1))
+        spec["type_masses"][t] = draw(st.sampled_from([72.15, 0.5, 500.25, 13.2]))
+        spec["_nonatomic_mass"] = True
     if spec["cell"] is not None and draw(hperm.integers(0, 5)) == 0:
         c = np.array(spec["cell"])
         c[1, 0] = draw(st.sampled_from([1e-4, -1e-4, 2e-6, 0.0]))
@@ -292,6 +298,12 @@ def oracle(c, stats):
         if spec2[k + "_coeffs"]:
             spec2[k + "_coeffs"][-1] = spec2[k + "_coeffs"][-1].split("#")[0].strip() + " 7.5"
             setattr(a, M.COEFF_ATTR[k], list(spec2[k + "_coeffs"]))
+    if spec2["cell"] is not None and np.asarray(a.cell).dtype.kind == "f" and len(spec2["pos"]) % 2 == 0:
+        # the cell sheared in place (s.cell[1, 0] = ...): an orthorhombic box becomes a tilted one and the other way round
+        new_xy = 0.0 if abs(spec2["cell"][1][0]) > 0 else round(0.25 * spec2["cell"][0][0], 6)
+        spec2["cell"][1][0] = new_xy
+        a.cell[1, 0] = new_xy
+        stats.count("cell-sheared-in-place-before-second-write")
     try:
         t4 = save_text(a, style)
     except Exception as e:
@@ -307,6 +319,8 @@ def oracle(c, stats):
     stats.count("cell:%s" % ("none" if cell is None else "tilted" if tilted else "ortho"))
     stats.count("normalised:%s" % c["normalised"])
     stats.count("call:" + form)
+    if spec.get("_nonatomic_mass"):
+        stats.count("non-atomic-mass")
     if spec.get("_empty_entry"):
         stats.count("empty-coefficient-entry")
     if spec.get("_neutral"):
